@@ -150,7 +150,21 @@ impl RtpsStatefulWriter {
                 {
                     let acked_changes = acknack_submessage.reader_sn_state().base() - 1;
                     reader_proxy.acked_changes_set(acked_changes);
-                    reader_proxy.requested_changes_set(acknack_submessage.reader_sn_state().set());
+                    // Only changes the writer has produced so far can be requested
+                    let highest_known_seq_num = core::cmp::max(
+                        self.changes
+                            .iter()
+                            .map(|cc| cc.sequence_number)
+                            .max()
+                            .unwrap_or(0),
+                        reader_proxy.highest_sent_seq_num(),
+                    );
+                    reader_proxy.requested_changes_set(
+                        acknack_submessage
+                            .reader_sn_state()
+                            .set()
+                            .filter(|sn| *sn <= highest_known_seq_num),
+                    );
 
                     reader_proxy.set_last_received_acknack_count(acknack_submessage.count());
 
